@@ -5,9 +5,12 @@ package checks
 import (
 	"bytes"
 	"context"
+	"errors"
 	"fmt"
 	"os"
 	"path/filepath"
+	"strings"
+	"sync"
 	"time"
 
 	"verif/cluster"
@@ -179,4 +182,154 @@ func runC11HaltRelease(c *core.Case, k int) {
 	}
 	c.Count("haltrel_judged", 1)
 	c.Distinct(fmt.Sprintf("haltrel/ps%d/mark%d/returned%v", ps, mark-pager.WalRead0, returned))
+}
+
+func init() {
+	addFamily("C11", func(tier string) int {
+		if tier == "thorough" {
+			return 48
+		}
+		return 6
+	}, runC11RoleChangeUnderWriter, " (+ role change under a local writer: an application on the primary is inside a write transaction (rollback journal with pages already written, or WAL with frames appended) when the node loses its lease; the recovery LiteFS runs at the role change has to wait for the transaction's locks: while the writer holds them neither the database file, the journal nor the log may change, counters rolechg_*)")
+	chk := Registry["C11"]
+	base := chk.Floors
+	chk.Floors = func(tier string) map[string]int {
+		m := map[string]int{}
+		if base != nil {
+			for k, v := range base(tier) {
+				m[k] = v
+			}
+		}
+		m["rolechg_judged"] = 3
+		return m
+	}
+}
+
+func runC11RoleChangeUnderWriter(c *core.Case, k int) {
+	ps := []uint32{1024, 4096, 512}[k%3]
+	wal := k%2 == 1
+	mode := []string{"delete", "truncate", "persist"}[(k/2)%3]
+	var mu sync.Mutex
+	blocked := false
+	cl, err := cluster.New(c.Dir, []cluster.NodeOpts{{Candidate: true}})
+	if err != nil {
+		c.Inconclusive(err.Error())
+		return
+	}
+	defer cl.Close()
+	cl.Svc.SetInject(func(node, op string) error {
+		mu.Lock()
+		defer mu.Unlock()
+		if blocked && op == "acquire" {
+			return errors.New("scripted: acquire unavailable")
+		}
+		return nil
+	})
+	if err := cl.Start(0); err != nil || cl.WaitPrimary(0, 10*time.Second) == nil {
+		c.Inconclusive("primary start")
+		return
+	}
+	P := cl.Nodes[0]
+	led := newLedger()
+	detail := map[string]any{"page_size": ps, "wal": wal, "journal_mode": mode}
+	w, err := newWriter(P.Node, "db", ps, wal, mode, nil, c.SubRng("w"), led, 1)
+	if err != nil {
+		c.Violate("C11/setup", err.Error(), detail)
+		return
+	}
+	defer w.close()
+	if err := w.ensure(uint32(8 + c.Rng.IntN(6))); err != nil {
+		c.Violate("C11/setup", err.Error(), detail)
+		return
+	}
+	_, _ = w.txn(2)
+	// ---- the application's transaction is parked after it has written something
+	parked := make(chan string, 1)
+	resume := make(chan struct{})
+	writes := 0
+	w.d.Hook = func(step string) error {
+		if strings.HasPrefix(step, "db write page") || strings.HasPrefix(step, "wal frame") {
+			writes++
+		}
+		if writes >= 2 && (strings.HasPrefix(step, "journal finalize") || strings.HasPrefix(step, "db write page") || strings.HasPrefix(step, "wal frame") || strings.HasPrefix(step, "wal fsync")) {
+			select {
+			case parked <- step:
+				<-resume
+			default:
+			}
+		}
+		return nil
+	}
+	cur := w.d.M.PageN
+	done := make(chan pager.TxResult, 1)
+	go func() {
+		if wal {
+			done <- w.conn.RunWALTx(pager.WALSpec{NewPageN: cur, Outcome: "commit", SplitFrame: true, Frames: []pager.FrameSpec{{Pgno: 2}, {Pgno: 3}, {Pgno: 4}, {Pgno: 1}}})
+		} else {
+			done <- w.conn.RunRollbackTx(pager.RollbackSpec{Mode: mode, Outcome: "commit", NewPageN: cur, Dirty: []uint32{2, 3, 4, 5}, SpillAfter: 1})
+		}
+	}()
+	var at string
+	select {
+	case at = <-parked:
+	case r := <-done:
+		c.Inconclusive(fmt.Sprintf("the transaction ended before it could be parked (%v)", r.Err))
+		return
+	case <-time.After(20 * time.Second):
+		c.Inconclusive("the transaction was not parked")
+		return
+	}
+	detail["writer_parked_before"] = at
+	dbDir := mon.DBDir(P.Node, "db")
+	read := func() (a, b, j []byte) {
+		a, _ = os.ReadFile(filepath.Join(dbDir, "database"))
+		b, _ = os.ReadFile(filepath.Join(dbDir, "wal"))
+		j, _ = os.ReadFile(filepath.Join(dbDir, "journal"))
+		return
+	}
+	db0, wal0, j0 := read()
+	// ---- the node loses its lease
+	mu.Lock()
+	blocked = true
+	mu.Unlock()
+	if k%4 < 2 {
+		P.Store.Demote()
+	} else {
+		cl.Svc.Expire()
+	}
+	for dl := time.Now().Add(10 * time.Second); P.Store.IsPrimary() && time.Now().Before(dl); {
+		time.Sleep(time.Millisecond)
+	}
+	time.Sleep(200 * time.Millisecond)
+	db1, wal1, j1 := read()
+	if !bytes.Equal(db0, db1) || !bytes.Equal(wal0, wal1) || !bytes.Equal(j0, j1) {
+		close(resume)
+		<-done
+		c.Violate("C11/internal-writer-ran-with-conflicting-client-lock", fmt.Sprintf("role-change: an application is inside a write transaction (parked before %q, it holds its write locks) when the node loses its lease; LiteFS's recovery changed the files under it (database changed: %v, %d -> %d bytes; log changed: %v, %d -> %d bytes; journal changed: %v, %d -> %d bytes)", at, !bytes.Equal(db0, db1), len(db0), len(db1), !bytes.Equal(wal0, wal1), len(wal0), len(wal1), !bytes.Equal(j0, j1), len(j0), len(j1)), detail)
+		return
+	}
+	close(resume)
+	var res pager.TxResult
+	select {
+	case res = <-done:
+	case <-time.After(30 * time.Second):
+		c.Inconclusive("watchdog: the parked transaction did not end")
+		return
+	}
+	w.d.Hook = nil
+	detail["transaction_result"] = fmt.Sprint(res.Err)
+	w.close()
+	mu.Lock()
+	blocked = false
+	mu.Unlock()
+	// (WAL mode: a commit that begins after the authority was lost stops the node by design)
+	if len(P.Node.Exits()) == 0 {
+		if healthViolations(c, P.Node, "role change under a writer", detail) {
+			return
+		}
+	} else {
+		c.Count("rolechg_node_exit_by_design", 1)
+	}
+	c.Count("rolechg_judged", 1)
+	c.Distinct(fmt.Sprintf("rolechg/wal%v/%s/ps%d/%s", wal, mode, ps, stepClass(at)))
 }
